@@ -149,7 +149,9 @@ def abs4h(ctx, pid):
                         probs.append((f, ev.node, "recursion passes `%s`, expected the key remainder of consume_common_prefix" % tstr(args[1])[:50]))
                     if eng.len_of(cur_rem, st.facts) != (0, 0):
                         probs.append((f, ev.node, "recursion below an extension whose path is not fully matched"))
-        nn = st.env.get("new_node")
+        # the branch built by a split: the local holding an updated list (whatever it is called)
+        upds = [v for k_, v in st.env.items() if k_ not in f.params and isinstance(v, tuple) and v and v[0] == "upd"]
+        nn = upds[0] if upds else None
         t = nn
         while t is not None and t[0] == "upd":
             idx, val = t[2], t[3]
